@@ -164,6 +164,22 @@ theorem checkTxnStatus_eff {m : Mut} {ks : KeyState} (cur : Nat) (ok : TsOK S CV
       show HasR S (rollbackKey ks S)
       rw [e]; exact effRollback_hasR
 
+/-- a prewrite of another transaction (start ts ≠ S) that succeeds on the key -/
+theorem foreignKey_kstep {fts ttl : Nat} {m m' : Mut} {ks : KeyState} (hne : fts ≠ S)
+    (hok : (prewriteKey fts ttl m' ks).2 = .ok) : KStep S CV m ks (prewriteKey fts ttl m' ks).1 := by
+  unfold prewriteKey at hok ⊢
+  split at hok
+  · cases hok
+  · rename_i hlo
+    split at hok
+    · cases hok
+    · rename_i hnew
+      simp only [hlo, hnew]
+      refine KStep.foreign _ _ ?_ hne (by simp [setData, Ne.symm hne])
+      rintro ⟨l, hl, hts⟩
+      apply hlo
+      simp [lockedByOther, hl, hts, Ne.symm hne]
+
 end perkey
 
 /-! ### store level -/
@@ -301,6 +317,76 @@ theorem resolve_ginv (wf : TxnWF t) (cv : Nat) : ∀ (ks : List Nat) (s : Store)
         (fun _ _ _ => hcP.2)
         (fun _ _ hr => absurd hr (effCommit_noR hn hkind))
       exact next _ he g.1 g.2
+
+/-- another transaction prewrites one of the keys -/
+theorem foreign_ginv (wf : TxnWF t) (s : Store) (h : GInv t s) (k fts ttl v : Nat) :
+    GInv t (foreignPrewrite t s k fts ttl v) ∧ SMono t.start s (foreignPrewrite t s k fts ttl v) := by
+  unfold foreignPrewrite
+  split
+  · exact ⟨h, SMono.refl _ _⟩
+  · rename_i hne
+    split
+    · rename_i hany
+      simp only [List.any_eq_true, decide_eq_true_eq] at hany
+      obtain ⟨m, hm, rfl⟩ := hany
+      split
+      · rename_i hok
+        have st : KStep t.start t.cv m (s m.key) (prewriteKey fts ttl ⟨m.key, .put, v⟩ (s m.key)).1 :=
+          foreignKey_kstep hne hok
+        have same : ∀ ks', KStep t.start t.cv m (s m.key) ks' → ks'.writes = (s m.key).writes →
+            GInv t (s.set m.key ks') ∧ SMono t.start s (s.set m.key ks') := by
+          intro ks' st' hw
+          have hcE : HasC t.start ks' ↔ HasC t.start (s m.key) := by unfold HasC; rw [hw]
+          have hrE : HasR t.start ks' ↔ HasR t.start (s m.key) := by unfold HasR; rw [hw]
+          exact GInv.set wf h hm st'
+            (fun _ hnc hc => absurd (hcE.1 hc) hnc) (fun _ hnc hc => absurd (hcE.1 hc) hnc)
+            (fun _ hnr hr => absurd (hrE.1 hr) hnr)
+        refine same _ st ?_
+        unfold prewriteKey at hok ⊢
+        split at hok
+        · cases hok
+        · split at hok
+          · cases hok
+          · rename_i h1 h2; simp [h1, h2]
+      · exact ⟨h, SMono.refl _ _⟩
+    · exact ⟨h, SMono.refl _ _⟩
+
+theorem foreignAbort_kstep (s : Store) {m : Mut} (fts : Nat) (h1 : fts ≠ t.start) (h2 : fts ≠ t.cv) :
+    KStep t.start t.cv m (s m.key) (rollbackKey (s m.key) fts) ∧
+    (HasC t.start (rollbackKey (s m.key) fts) → HasC t.start (s m.key)) ∧
+    (HasR t.start (rollbackKey (s m.key) fts) → HasR t.start (s m.key)) := by
+  rcases rollbackKey_eff (S := fts) (s m.key) with e | ⟨_, e⟩
+  · rw [e]; exact ⟨KStep.same, id, id⟩
+  · rw [e]
+    have old : ∀ w ∈ (effRollback fts (s m.key)).writes, w.startTs = t.start → w ∈ (s m.key).writes := by
+      intro w hw hs
+      simp only [effRollback, mem_setWrite] at hw
+      rcases hw with r | ⟨m1, _⟩
+      · subst r; exact absurd hs h1
+      · exact m1
+    refine ⟨KStep.foreignRb fts h1 h2, ?_, ?_⟩
+    · rintro ⟨w, hw, hs, hk⟩; exact ⟨w, old w hw hs, hs, hk⟩
+    · rintro ⟨w, hw, hs, hk⟩; exact ⟨w, old w hw hs, hs, hk⟩
+
+/-- another transaction is rolled back on one of the keys -/
+theorem foreignAbort_ginv (wf : TxnWF t) (s : Store) (h : GInv t s) (k fts : Nat) :
+    GInv t (foreignAbort t s k fts) ∧ SMono t.start s (foreignAbort t s k fts) := by
+  unfold foreignAbort
+  split
+  · exact ⟨h, SMono.refl _ _⟩
+  · rename_i h1
+    split
+    · exact ⟨h, SMono.refl _ _⟩
+    · rename_i h2
+      split
+      · rename_i hany
+        simp only [List.any_eq_true, decide_eq_true_eq] at hany
+        obtain ⟨m, hm, rfl⟩ := hany
+        obtain ⟨st, hc, hr⟩ := foreignAbort_kstep (t := t) s (m := m) fts h1 h2
+        exact GInv.set wf h hm st
+          (fun _ hnc hc' => absurd (hc hc') hnc) (fun _ hnc hc' => absurd (hc hc') hnc)
+          (fun _ hnr hr' => absurd (hr hr') hnr)
+      · exact ⟨h, SMono.refl _ _⟩
 
 /-- `CheckTxnStatus` on the primary -/
 theorem check_ginv (wf : TxnWF t) (cur : Nat) (s : Store) (h : GInv t s) :
